@@ -348,3 +348,14 @@ package asn1
 //@ props C10
 //@ pure
 //@ ensures [accepted-exactly-when-the-first-two-arcs-can-be-packed] err == nil <==> (len(oid) >= 2 && oid[0] <= 2 && (oid[0] >= 2 || oid[1] < 40))
+
+// BMPString (as upstream): an even number of octets, one optional two-octet NUL terminator stripped,
+// the rest read as big-endian 16-bit units and decoded as UTF-16 (so surrogate pairs form one rune).
+//@ func parseBMPString
+//@ props C10
+//@ pure
+//@ site utf16.Decode#1 as dec
+//@ loop 1 invariant len(bmpString) % 2 == 0
+//@ ensures [an-odd-number-of-octets-is-refused] len(old(bmpString)) % 2 != 0 ==> result1 != nil && !dec.called
+//@ ensures [an-even-number-of-octets-is-decoded-as-utf-16] len(old(bmpString)) % 2 == 0 ==> result1 == nil && dec.called
+//@ loop 1 step-assert [units-are-big-endian-pairs-taken-in-order] len(next(s)) == len(head(s)) + 1 && next(s)[len(head(s))] == uint16(head(bmpString)[0]) << 8 + uint16(head(bmpString)[1]) && len(next(bmpString)) == len(head(bmpString)) - 2
